@@ -301,6 +301,21 @@ def judge(gen_view, calls, a, hmap, catalogued):
         out.append(("helper:" + d, "after %r the tree declares %r, expected %r" % (calls, v1, want1)))
         return out
     dotted = "." in name or (sch is not None and "." in sch)      # the printers join schema and table into ONE back-quoted dotted name
+    # the Hive pre-pass rewrites == to = inside quoted comments as well (F-C18-4, root cause F-C06-2): attributed first, then the comparison goes on with the
+    # comments as the pre-pass leaves them, so that a second listed departure in the same table is still recognised
+    fixc = lambda c_: c_ and c_.replace("==", "=")
+    eqeq = any("==" in (x or "") for x in [comment] + [c[3] for c in prop_cols] + [p_[3] for p_ in code_parts])
+    prop_cols_h = [x[:3] + [fixc(x[3])] + x[4:] for x in prop_cols]
+    code_cols_h = [x[:3] + [fixc(x[3])] + x[4:] for x in code_cols]
+    code_parts_h = [tuple(p_[:3]) + (fixc(p_[3]),) for p_ in code_parts]
+    comment_h = fixc(comment)
+    if eqeq and f["hive"].startswith("S:") and "|" in f["rh"]:
+        keep0 = lambda ty, ps: ps if ty.upper() in HIVE_KEEPS else None
+        as_written = canon_view((sch, name, [(x[0], x[1], keep0(x[1], x[4]), x[3]) for x in prop_cols], [(p_[0], p_[1], keep0(p_[1], p_[2]), p_[3]) for p_ in code_parts], comment))
+        as_rewritten = canon_view((sch, name, [(x[0], x[1], keep0(x[1], x[4]), x[3]) for x in prop_cols_h], [(p_[0], p_[1], keep0(p_[1], p_[2]), p_[3]) for p_ in code_parts_h], comment_h))
+        rv = parse_view(f["rh"])
+        if first_diff(rv, as_written) and first_diff(rv, as_written) != first_diff(rv, as_rewritten):
+            out.append(("hive:comment:eqeq-prepass", "a comment containing == comes back with = from the Hive DDL (whole-text pre-pass, root cause F-C06-2): %s" % f["hive"][:160]))
     # Hive
     if not f["hive"].startswith("S:"):
         out.append(("hive:print:" + f["hive"], "printing for Hive failed"))
@@ -308,15 +323,12 @@ def judge(gen_view, calls, a, hmap, catalogued):
         out.append(("hive:reparse:" + f["rh"], "the Hive DDL does not parse back to one table: " + f["hive"][:200]))
     else:
         keep = lambda ty, ps: ps if ty.upper() in HIVE_KEEPS else None
-        want_h = canon_view((sch, name, [(x[0], x[1], keep(x[1], x[4]), x[3]) for x in prop_cols], [(p[0], p[1], keep(p[1], p[2]), p[3]) for p in code_parts], comment))
+        want_h = canon_view((sch, name, [(x[0], x[1], keep(x[1], x[4]), x[3]) for x in prop_cols_h], [(p[0], p[1], keep(p[1], p[2]), p[3]) for p in code_parts_h], comment_h))
         d = first_diff(parse_view(f["rh"]), want_h)
-        eqeq = any("==" in (x or "") for x in [comment] + [c[3] for c in prop_cols] + [p_[3] for p_ in code_parts])
         if d == "table-name" and dotted:
             out.append(("table-name:dotted", "table %r.%r re-parses from the printed DDL as %r" % (sch, name, parse_view(f["rh"])[:2])))
-        elif d and eqeq and "comment" in d:
-            out.append(("hive:comment:eqeq-prepass", "a comment containing == comes back with = from the Hive DDL (whole-text pre-pass, root cause F-C06-2): %s" % f["hive"][:160]))
-        elif d == "params" and mapped_by_default_removal and first_diff(parse_view(f["rh"]), canon_view((sch, name, [(x[0], x[1], keep(x[1], x[2]), x[3]) for x in code_cols], [(p[0], p[1], keep(p[1], p[2]), p[3]) for p in code_parts], comment))) is None:
-            out.append(("hive:params:removed-by-default", "change_type(remove_param=True) dropped parameters Hive has: %r" % [x[:3] for x in prop_cols if x[1].upper() in HIVE_KEEPS and x[4] is not None]))
+        elif d == "params" and mapped_by_default_removal and first_diff(parse_view(f["rh"]), canon_view((sch, name, [(x[0], x[1], keep(x[1], x[2]), x[3]) for x in code_cols_h], [(p[0], p[1], keep(p[1], p[2]), p[3]) for p in code_parts_h], comment_h))) is None:
+            out.append(("hive:params:removed-by-default", "change_type(remove_param=True) dropped parameters Hive has: %r" % [x[:3] for x in prop_cols_h if x[1].upper() in HIVE_KEEPS and x[4] is not None]))
         elif d:
             out.append(("hive:" + d, "the Hive DDL declares %r, expected %r; text %s" % (parse_view(f["rh"]), want_h, f["hive"][:200])))
     # MySQL: the MySQL printer has no PARTITIONED BY (Hive-only), everything else must come back
